@@ -19,11 +19,15 @@ type evalReq struct {
 	Coq    bool   `json:"coq"`
 	Repeat int    `json:"repeat"`
 	Fresh  bool   `json:"fresh"` // build a brand-new interpreter env for this request
+	// Prelude is evaluated once per process (per distinct text) in a scope enclosed in the
+	// global one; Src then runs in a fresh scope enclosed in the prelude's scope.
+	Prelude string `json:"prelude"`
 }
 
 type evalReply struct {
 	evalResult
 	Coq    string   `json:"coq,omitempty"`
+	PreCoq string   `json:"precoq,omitempty"`
 	Ast    string   `json:"ast,omitempty"`
 	Nondet []string `json:"nondet,omitempty"`
 }
@@ -34,6 +38,8 @@ func cmdEval() {
 	var out bytes.Buffer
 	in := &switchReader{}
 	global := newEnv(in, &out)
+	preEnvs := map[string]*object.Env{}
+	preCoq := map[string]string{}
 	readLines(func(line []byte) {
 		var q evalReq
 		if err := json.Unmarshal(line, &q); err != nil {
@@ -48,9 +54,24 @@ func cmdEval() {
 			in.r = strings.NewReader(q.Stdin)
 			env := global
 			if q.Fresh {
-				var o2 bytes.Buffer
-				_ = o2
 				env = newEnv(in, &out)
+			}
+			if q.Prelude != "" && !q.Fresh {
+				pe, ok := preEnvs[q.Prelude]
+				if !ok {
+					pe = object.NewEnclosedEnv(global)
+					pr := evalIn(q.Prelude, pe, &out)
+					if pr.Kind != "value" {
+						rep.evalResult = evalResult{Kind: "syntax", ErrMsg: "prelude failed: " + pr.ErrMsg + pr.Panic}
+						break
+					}
+					out.Reset()
+					preEnvs[q.Prelude] = pe
+					if node, err := parseString(q.Prelude); err == nil {
+						preCoq[q.Prelude] = coqProgram(node)
+					}
+				}
+				env = pe
 			}
 			r := evalIn(q.Src, object.NewEnclosedEnv(env), &out)
 			if i == 0 {
@@ -71,6 +92,7 @@ func cmdEval() {
 				if err == nil {
 					rep.Coq = coqProgram(node)
 					rep.Ast = node.String()
+					rep.PreCoq = preCoq[q.Prelude]
 				}
 			}()
 		}
